@@ -57,6 +57,8 @@ def gen_cases(rng, tier):
       model["api_variant"] = rng.choice([None, None, "tuple", "int_cutoff", "kwargs", "realfile", "amend_after_write"])
       if model["api_variant"] == "int_cutoff":
         model["tab"]["cutoff"] = float(rng.randint(1, 20))
+      if i % 5 in (1, 2, 3):
+        model["api_results"] = [None, "numpy0d", "numpy0d_int", "numpy0d_cached"][i % 5]   # functions returning 0-d numpy arrays (fresh / integer-typed / memoised)
     cases.append({"route": route, "model": model, "style": rng.randrange(1 << 30), "reject": reject})
   # a discontinuity of V exactly on a grid point of a grid whose step is NOT a dyadic fraction (r accumulates
   # rounding there): energy and force of that row must still come from one and the same branch
@@ -93,6 +95,13 @@ def gen_cases(rng, tier):
     route = ["potable", "cli", "api_legacy", "api_class"][(i % 7 + i // 7) % 4]
     model, k = spec.exact_boundary_model(rng, rng.choice(["DL_POLY", "DLPOLY"]), v, dlpoly=True, shared=route.startswith("api"))
     cases.append({"route": route, "model": model, "style": rng.randrange(1 << 30), "reject": False, "exact_boundary": v, "root_on_grid": k})
+  # decimal grids: a discontinuity 8 ulps below / above an upper row k - whichever rounding of k*delpot the writer uses the
+  # row is on a definite side, unless its separations drift (a running sum is tens of ulps off after some hundred rows)
+  for i in range(16 if tier == "quick" else 80):
+    v = spec.NEAR_ROW_VARIANTS[i % 2]
+    route = ["api_class", "potable", "api_legacy", "cli"][(i // 2) % 4]
+    model, k = spec.near_row_boundary_model(rng, ["DL_POLY", "DLPOLY"][i % 2], v, i // 2, dlpoly=True)
+    cases.append({"route": route, "model": model, "style": rng.randrange(1 << 30), "reject": False, "near_row_boundary": v, "root_on_grid": k, "strict_rows": [k]})
   # plain Python callables whose first rows are whole numbers returned as int (a capped core: 100 below r_c), floats later
   for i in range(6 if tier == "quick" else 40):
     nr = rng.choice([8, 12, 24, 44])
@@ -184,6 +193,8 @@ def run_case(case, ctx):
   rows = oracle.sample_rows(nr, rng, 24)
   if case.get("exact_boundary"):
     ctx.cls("exact_boundary_on_row:" + case["exact_boundary"])
+  if case.get("near_row_boundary"):
+    ctx.cls("near_row_boundary:" + case["near_row_boundary"])
   if case.get("root_on_grid"):
     rows = sorted(set(rows + [case["root_on_grid"] - 1]))
     ctx.cls("root_on_grid")
@@ -205,6 +216,7 @@ def run_case(case, ctx):
     return
   log = monitors.EventLog()
   pots = None
+  del routes.NUMPY0D_CACHED[:]
   try:
     if route == "cli":
       text_in = emit.model_text(model, emit.Style(rng))
@@ -247,6 +259,10 @@ def run_case(case, ctx):
     ctx.violation("exception", "valid model failed: %s: %s" % (et, e), what="exception", exc=et, func=fn)
     return
   ctx.count("executions")
+  if str(model.get("api_results")).startswith("numpy0d"):
+    ctx.cls("api_results:" + model["api_results"])
+    if not routes.numpy0d_mutations(ctx):
+      return
   try:
     tbl = readers.read_dlpoly_table(text)
   except readers.FormatError as e:
@@ -279,8 +295,8 @@ def run_case(case, ctx):
       r = R.F(delpot * k)
       where = "block %d (%s-%s) k=%d r=%s route=%s" % (idx, a, b, k, mp.nstr(r, 12), route)
       d_ref = o.deriv(r)
-      drift = (k + 4) * mp.mpf("2.3e-16") * r
-      oracle.check_value(ctx, "energy", blk["energies"][i], o, r, where=where, abs_=abs(d_ref) * drift, fmt="dlpoly_table", strict=bool(case.get("exact_boundary")))
+      drift = 8 * mp.mpf("2.3e-16") * r    # the separation a writer uses may be a few ulps from k*delpot (not a running sum: see near_row_boundary)
+      oracle.check_value(ctx, "energy", blk["energies"][i], o, r, where=where, abs_=abs(d_ref) * drift, fmt="dlpoly_table", strict=bool(case.get("exact_boundary")) or k in case.get("strict_rows", ()))
       if oracle.on_break(r, o.breaks, 1e-9) and o.analytic:
         # a grid point on a range boundary: energy and force must come from the SAME branch of V.
         # If the printed energy identifies one side, the force has to be the derivative of that side.
